@@ -108,6 +108,14 @@ C04_ShapeRoundTrip ==
              /\ Ev.reshape = Ev.proj
              /\ Modelled => (Readable /\ ReadWire(Ev.bytes, rd) = ExpWire(Ev.shape, Ev.opts))
 
+(* the MP_REACH next-hop field has the length the address-family RFCs give it for the next hop the
+   shape asks for (one address, IPv6 for IPv4 NLRI, IPv6 global + link-local; RD per address for VPN) *)
+C04_NextHopLen ==
+  (Emitted /\ Modelled /\ Readable /\ rd.body.t = "update" /\ Len(rd.body.inner) = Len(Ev.shape.attrs)) =>
+    \A i \in DOMAIN Ev.shape.attrs :
+       Ev.shape.attrs[i].t = "mpreach" =>
+          rd.body.inner[i].nhl \in ExpNhLens(Ev.shape.attrs[i].fam, Ev.shape.attrs[i].n)
+
 (* harness-computed postconditions (no TLA+ counterpart for value-level equality) *)
 C04_Fixpoint == (Emitted /\ ~Ev.parseerr) => (~Ev.resererr /\ Ev.fixpoint)
 C04_Equal    == (Emitted /\ ~Ev.parseerr) => Ev.equal
@@ -164,7 +172,15 @@ KF_MpAddPathLen(a, i) ==
 (* KF-C04-tunnelencap-len: the tunnel-encapsulation sub-TLV constructors never set the cached
    Length that TunnelEncapSubTLV.Len() / NewPathAttributeTunnelEncap rely on. *)
 KF_TunnelEncapLen(a, i) == AttrType(Ev.bytes, rd.body.attrs.els[i]) = 23 /\ a.attrs[i] < AttrN(i)
-LenTol(i) == KF_MpAddPathLen(Ev.lens, i) \/ KF_TunnelEncapLen(Ev.lens, i)
+(* KF-C04-vpn-nexthop-rd-len: NewPathAttributeMpReachNLRI adds the 8-octet RD of a VPN next hop once,
+   Serialize emits it in front of EACH of the two addresses (global + link-local, 48 octets): Len() of
+   the constructed attribute is 8 short (on top of the ADD-PATH shortfall when that applies). *)
+KF_VpnNhRdLen(a, i) ==
+  LET x    == rd.body.inner[i]
+      base == IF x.pre = 4 THEN 4 * Len(x.w.els) ELSE 0
+  IN /\ x.k = "mp" /\ x.safi = 128 /\ x.nhl = 48
+     /\ AttrN(i) - a.attrs[i] \in {8 + base, 8 + base + 1}
+LenTol(i) == KF_MpAddPathLen(Ev.lens, i) \/ KF_TunnelEncapLen(Ev.lens, i) \/ KF_VpnNhRdLen(Ev.lens, i)
 C04_LenAgrees_KF == Readable => LensAgreeTol(Ev.lens, LenTol)
 
 (* KF-C04-evpn-ipmsi: NewEVPNIPMSIRoute builds a route type 9 NLRI whose Serialize emits 28 octets
@@ -193,6 +209,9 @@ C04_KfCount ==
   /\ KfNote("KF-C04-mp-addpath-len", "C04_LenAgrees",
             Readable /\ IsUpd /\ Len(Ev.lens.attrs) = Len(rd.body.attrs.els) /\
             \E i \in DOMAIN Ev.lens.attrs : Ev.lens.attrs[i] # AttrN(i) /\ KF_MpAddPathLen(Ev.lens, i))
+  /\ KfNote("KF-C04-vpn-nexthop-rd-len", "C04_LenAgrees",
+            Readable /\ IsUpd /\ Len(Ev.lens.attrs) = Len(rd.body.attrs.els) /\
+            \E i \in DOMAIN Ev.lens.attrs : Ev.lens.attrs[i] # AttrN(i) /\ KF_VpnNhRdLen(Ev.lens, i))
   /\ KfNote("KF-C04-tunnelencap-len", "C04_LenAgrees",
             Readable /\ IsUpd /\ Len(Ev.lens.attrs) = Len(rd.body.attrs.els) /\
             \E i \in DOMAIN Ev.lens.attrs : Ev.lens.attrs[i] # AttrN(i) /\ KF_TunnelEncapLen(Ev.lens, i))
